@@ -21,6 +21,7 @@ import (
 	"time"
 
 	coraza "github.com/corazawaf/coraza/v3"
+	"github.com/corazawaf/coraza/v3/internal/corazawaf"
 	"github.com/corazawaf/coraza/v3/internal/memoize"
 	"github.com/corazawaf/coraza/v3/verifharness/eng"
 )
@@ -99,6 +100,7 @@ func main() {
 	dur := flag.Duration("d", 10*time.Second, "duration")
 	nreq := flag.Int("n", 200, "distinct requests")
 	yield := flag.Int("yield", 3, "one in N yield points yields")
+	tfrounds := flag.Int("tfrounds", 300, "rounds of builders racing on fresh transformation chains")
 	flag.Parse()
 	runtime.GOMAXPROCS(runtime.NumCPU())
 	var yctr atomic.Uint64
@@ -217,6 +219,8 @@ func main() {
 	case <-time.After(60 * time.Second):
 		deadlock = true
 	}
+	// ---- the table that numbers transformation chains (TfTable.tla): builders racing on never-seen chains ----
+	tfRounds, tfProblems, tfProbeMismatch := tfTablePhase(*seed, *tfrounds)
 	// quiescent state of the pattern cache: the model's invariants (MemoConc!NoLeak, NoDeletedInCache)
 	var cacheProblems []string
 	for _, e := range memoize.VerifSnapshot() {
@@ -259,6 +263,89 @@ func main() {
 		"cache_problems": cacheProblems, "cache_entries_left_after_all_wafs_closed": leaked,
 		"audit_lines": lines, "audit_bad_lines": badLines, "audit_lines_before_stress": seqAudited,
 		"first_mismatch": firstMismatch.Load(), "first_build_failure": firstBuildFail.Load(),
+		"tf_table_rounds": tfRounds, "tf_table_problems": tfProblems, "tf_table_probe_mismatches": tfProbeMismatch,
 	}
 	_ = json.NewEncoder(os.Stdout).Encode(out)
+}
+
+// tfTablePhase: in every round several goroutines build WAFs at the same moment whose rules carry
+// transformation chains no WAF of this process has used before (the same two fresh chains in every
+// builder), so that the registrations of one name race. After the round the invariant of
+// TfTable.tla (TableSound: every name has its own id, both directions agree) is evaluated on the
+// real table, and a WAF with one rule per fresh chain on the same argument must let both rules
+// see their own transformed value.
+func tfTablePhase(seed int64, rounds int) (int, []string, int) {
+	names := []string{"lowercase", "uppercase", "trim", "trimLeft", "trimRight", "removeWhitespace", "compressWhitespace", "removeNulls", "replaceNulls", "urlDecode", "hexEncode", "base64Encode", "md5", "sha1", "length", "cmdLine", "normalisePath", "htmlEntityDecode", "jsDecode", "cssDecode"}
+	r := rand.New(rand.NewSource(seed*31 + 7))
+	chain := func() []string {
+		n := 4 + r.Intn(3)
+		c := make([]string, n)
+		for i := range c {
+			c[i] = names[r.Intn(len(names))]
+		}
+		return c
+	}
+	tlist := func(c []string) string { return "t:" + strings.Join(c, ",t:") }
+	var problems []string
+	probeMismatch := 0
+	done := 0
+	for round := 0; round < rounds && len(problems) == 0 && probeMismatch == 0; round++ {
+		// two fresh chains: A ends in hexEncode (the value is visible), B ends in length
+		a := append(chain(), fmt.Sprintf("hexEncode"))
+		b := append(chain(), "length")
+		text := fmt.Sprintf("SecRuleEngine On\nSecRule ARGS:a \"@rx ^[0-9a-f]*$\" \"id:1,phase:1,pass,%s\"\nSecRule ARGS:a \"@rx ^[0-9]+$\" \"id:2,phase:1,pass,%s\"\n", tlist(a), tlist(b))
+		var wg sync.WaitGroup
+		start := make(chan struct{})
+		wafs := make([]coraza.WAF, 8)
+		for g := range wafs {
+			wg.Add(1)
+			go func(g int) {
+				defer wg.Done()
+				defer func() { _ = recover() }()
+				<-start
+				w, err := coraza.NewWAF(coraza.NewWAFConfig().WithDirectives(text))
+				if err == nil {
+					wafs[g] = w
+				}
+			}(g)
+		}
+		close(start)
+		wg.Wait()
+		done++
+		idToName, nameToID := corazawaf.VerifTransformationTable()
+		if len(idToName) != len(nameToID) {
+			problems = append(problems, fmt.Sprintf("round %d: %d ids but %d names (TfTable!Agree)", round, len(idToName), len(nameToID)))
+		}
+		for n, id := range nameToID {
+			if id < 0 || id >= len(idToName) || idToName[id] != n {
+				problems = append(problems, fmt.Sprintf("round %d: the id %d of chain %q names another chain (TfTable!Agree)", round, id, n))
+				break
+			}
+		}
+		// behaviour: with every WAF built in the round, both rules fire on a value both chains accept
+		for _, w := range wafs {
+			if w == nil {
+				continue
+			}
+			tx := w.NewTransaction()
+			tx.AddGetRequestArgument("a", "Some Value 1")
+			tx.ProcessRequestHeaders()
+			fired := map[int]bool{}
+			for _, mr := range tx.MatchedRules() {
+				fired[mr.Rule().ID()] = true
+			}
+			_ = tx.Close()
+			if !fired[1] || !fired[2] {
+				probeMismatch++
+				problems = append(problems, fmt.Sprintf("round %d: rules over two fresh chains on one argument: fired %v, alone both fire || %s", round, fired, strings.ReplaceAll(text, "\n", " ; ")))
+				break
+			}
+		}
+		for _, w := range wafs {
+			if w != nil {
+				_ = w.(interface{ Close() error }).Close()
+			}
+		}
+	}
+	return done, problems, probeMismatch
 }
